@@ -52,10 +52,12 @@ Definition absids_distinct_b (g : graph) : bool := nodup_b okey_eqb (map (absid 
 (* AbsIDs of the edges are pairwise distinct *)
 Definition ekeys_distinct_b (g : graph) : bool := nodup_b ekey_eqb (map (ekey_of g) (nonlife (g_edges g))).
 (* `near: <constant>` only on children of the root (d2compiler: "constant near keys can only be set on
-   root level shapes") *)
+   root level shapes"), and the constant is one of the 8 known ones (class 0, 1 or 2) *)
 Fixpoint no_near_t (t : tree) : bool :=
   match t with T _ _ k ks => negb (is_some (k_near k)) && forallb no_near_t ks end.
-Definition nears_at_root_b (g : graph) : bool := forallb (fun t => forallb no_near_t (t_kids t)) (g_roots g).
+Definition near_ok (o : option N) : bool := match o with None => true | Some c => N.ltb c 3 end.
+Definition root_near_ok (t : tree) : bool := near_ok (k_near (t_kind t)) && forallb no_near_t (t_kids t).
+Definition nears_at_root_b (g : graph) : bool := forallb root_near_ok (g_roots g).
 
 Definition wf (g : graph) : Prop := wf_b g = true.
 Definition absids_distinct (g : graph) : Prop := absids_distinct_b g = true /\ ekeys_distinct_b g = true.
